@@ -172,7 +172,7 @@ fn pass<F: FnOnce(&mut vh::VShell, &mut Vec<(String, String)>)>(spec: &str, toks
 
 /// streams that may hang or abort are run in a forked child under a watchdog
 fn isolated(stream: &str) -> bool {
-    matches!(stream, "xenv" | "xall" | "plan" | "subst" | "xrange" | "head" | "plan1" | "bseq" | "aliasrt")
+    matches!(stream, "xenv" | "xall" | "plan" | "subst" | "xrange" | "head" | "plan1" | "bseq" | "aliasrt" | "srun")
 }
 
 fn run_isolated(stream: &str, f: &[&str], timeout_ms: i32) -> String {
@@ -441,6 +441,32 @@ fn run_case(stream: &str, f: &[&str]) -> String {
             Ok(s) => s,
             Err(_) => "SYNTAX-ERROR".to_string(),
         },
+        "srun" => with_env(f[0], |sh| {
+            let text = unhex(f[1]);
+            let args: Vec<String> = if f[2] == "[]" { vec![] } else { f[2].split(',').map(unhex).collect() };
+            let mut seq: HashMap<String, Vec<i32>> = HashMap::new();
+            if f[3] != "[]" {
+                for p in f[3].split(',') {
+                    let mut it = p.split(':');
+                    let k = unhex(it.next().unwrap());
+                    let v: Vec<i32> = it.next().unwrap().split('.').filter_map(|x| x.parse().ok()).collect();
+                    seq.insert(k, v);
+                }
+            }
+            let watch: Vec<String> = if f[4] == "[]" { vec![] } else { f[4].split(',').map(unhex).collect() };
+            if vh::parse_script(&text).is_err() {
+                return "SYNTAX-ERROR".to_string();
+            }
+            vh::set_run_proc_seq(Some(seq), watch);
+            let _ = vh::run_script_text(sh, &text, &args);
+            let tr = vh::take_seq_trace();
+            vh::set_run_proc_seq(None, vec![]);
+            if tr.is_empty() {
+                "[]".to_string()
+            } else {
+                tr.iter().map(|(l, s, vs)| format!("{}:{}:{}", hex(l), s, vs.iter().map(|x| hex(x)).collect::<Vec<_>>().join("/"))).collect::<Vec<_>>().join(",")
+            }
+        }),
         "globq" => match vh::glob_query(&unhex(f[0])) {
             Some(v) => if v.is_empty() { "[]".to_string() } else { v.iter().map(|x| hex(x)).collect::<Vec<_>>().join("/") },
             None => "!".to_string(),
